@@ -29,9 +29,9 @@ LEVEL = "proof"
 _GenO = B._LiteDRAMBISTGenerator.__mro__[1]
 _ChkO = B._LiteDRAMBISTChecker.__mro__[1]
 _GeneratorO = B.Generator.__mro__[1]
-FUNCTIONS = ["litedram.frontend.bist:LFSR.__init__", "litedram.frontend.bist:Counter.__init__", "litedram.frontend.bist:get_ashift_awidth",
+FUNCTIONS = ["litedram.frontend.bist:_LiteDRAMBISTGenerator.__init__", "litedram.frontend.bist:_LiteDRAMBISTChecker.__init__",
+             "litedram.frontend.bist:Generator.__init__", "litedram.frontend.bist:LFSR.__init__", "litedram.frontend.bist:Counter.__init__", "litedram.frontend.bist:get_ashift_awidth",
              "litedram.frontend.dma:LiteDRAMDMAWriter.__init__", "litedram.frontend.dma:LiteDRAMDMAReader.__init__"]
-EXTRA_SOURCES = ["litedram/frontend/bist.py"]
 ASSUMPTIONS = [
     "preconditions of the property made explicit: end > base, end-base a power of two, at least one word (length >= word "
     "size), settings constant during a run, start only in the idle/reset state (software resets before each run)",
